@@ -585,6 +585,15 @@ class Loaded:
 _COMPILED = {}
 
 
+def loop_headers(qual):
+    modname, path = qual.split(":")
+    mod = importlib.import_module(modname)
+    with open(mod.__file__) as f:
+        tree = ast.parse(f.read())
+    fn = find_function(tree, path)
+    return [ast.unparse(n.iter) if isinstance(n, ast.For) else ast.unparse(n.test) for n in loops_preorder(fn)]
+
+
 def _compile(qual, cut_ordinals):
     key = (qual, tuple(sorted(cut_ordinals)))
     if key in _COMPILED:
@@ -622,6 +631,19 @@ def load(qual, loops=None, shims=None, extra_globals=None, int_mode="math"):
     shims and run-time object are rebuilt for every path."""
     from . import npshim
     loops = loops or {}
+    if any(isinstance(k, str) for k in loops):
+        # loops may be keyed by their header text ("range(1, grow + 1)"): robust against unrelated loops being added or removed
+        hdrs = loop_headers(qual)
+        resolved = {}
+        for k, v in loops.items():
+            if isinstance(k, str):
+                hits = [i for i, h in enumerate(hdrs) if h == k]
+                if len(hits) != 1:
+                    raise LookupError("%s: loop header %r matches %d loops (headers: %r)" % (qual, k, len(hits), hdrs))
+                resolved[hits[0]] = v
+            else:
+                resolved[k] = v
+        loops = resolved
     c = _compile(qual, loops.keys())
     mod = c["mod"]
     L = Loaded()
